@@ -19,6 +19,12 @@ def build(tier):
             pre = [f"0 <= dest_i < {nd}"] + (["dest_i < 8 or dest_i == 11"] if q else [])
             src += hgen.cond(name, "dest_i: int, write_into: bool, cwd_c: bool, legacy: bool", pre, f"L.{fn}({s}, dest_i, write_into, cwd_c, legacy)", sig="hb.KEY")
             conds += [Cond(name, "prop", T, group=fn), Cond(name + "__twin", "twin", 60, group=fn)]
+    # two operations on one client session: nothing the client remembers from the first may change the second
+    for v in range(3):
+        name = f"history_v{v}"
+        src += hgen.cond(name, "shape_i: int, dest_i: int, write_into: bool, legacy: bool", [f"0 <= shape_i < {ns}", f"0 <= dest_i < {len(L.REL_DESTS)}"] + (["dest_i < 2", "not legacy or shape_i % 2 == 0"] if q else []),
+                         f"L.upload_history(shape_i, dest_i, write_into, {v}, legacy)", sig="hb.KEY")
+        conds += [Cond(name, "prop", T, group="history"), Cond(name + "__twin", "twin", 60, group="history")]
     for fn in ("list_recursive", "remove"):
         name = fn
         src += hgen.cond(name, "shape_i: int, cwd_c: bool, arg_i: int, legacy: bool", [f"0 <= shape_i < {ns}", "0 <= arg_i <= 2"], f"L.{fn}(shape_i, cwd_c, arg_i, legacy)", sig="hb.KEY")
@@ -32,6 +38,7 @@ def build(tier):
             "trees": f"{ns} source tree shapes up to 3 levels deep (empty directory, empty file, nested directories, a single file, names with spaces, the same name on two levels, a directory containing an entry of its own name): {L.SHAPES}",
             "server kind": "the model peer answers MLST/MLSD (as aioftp's server) or, symbolic choice, is a LIST-only server (MLST/MLSD -> 502; LIST in ls -l format): the client's stat / list fallbacks run",
             "destination": f"{L.DESTS}" + (" (quick: the first 8 and 'x/foo')" if q else "") + "; write_into on/off; remote working directory / or /c",
+            "histories on one client": f"upload to a relative destination from {L.REL_DESTS}, then (0) change the working directory and upload to the same relative destination, (1) remove the image under its absolute spelling and upload again, (2) download the image back: exact remote and local trees",
             "list / remove": "each shape, asked through three spellings of the path, from two working directories; a sibling tree with a common name prefix must survive remove",
         },
         outside=["trees deeper than 3 levels / more than 2 entries per directory", "a real local filesystem (the local side is MemoryPathIO; '..' in local paths excluded)", "symbolic links", "'..' inside a remote destination on a LIST-only server (stat falls back to finding '..' in a listing)",
